@@ -413,6 +413,37 @@ def check_unify(acc: core.Acc, world: World, segs: list, seps: list, p: str) -> 
                  op='unify_path')
 
 
+def check_packlist(acc: core.Acc, world: World, segs: list, seps: list, p: str) -> None:
+    """The pack list's entry points that build a pack path from a caller-given name or folder: whatever they accept, no name
+    recorded in the pack list may climb above the pack root or be absolute."""
+    from srctools.packlist import PackList
+    if len(segs) > 3:
+        return
+    for route in ('pack_file', 'inject_file', 'inject_vscript'):
+        acc.evaluations += 1
+        case = {'segs': segs, 'seps': seps, 'op': 'packlist_' + route}
+        pl = PackList(FileSystemChain())
+        try:
+            if route == 'pack_file':
+                pl.pack_file(p if p else 'x', data=b'data')
+            elif route == 'inject_file':
+                pl.inject_file(b'data', p, 'cfg')
+            else:
+                pl.inject_vscript('x <- 1', p)
+        except ValueError:
+            acc.outcome(('packlist', route, 'ValueError'))
+            continue
+        except Exception as e:  # noqa: BLE001
+            acc.fail('unify_foreign_exception', case, f'PackList.{route}({world.show(p)!r}) raised {type(e).__name__}: {e}', op='packlist_' + route)
+            continue
+        for name in pl.filenames():
+            esc = depth_escape(name)
+            if esc is not None or name.startswith('/'):
+                acc.fail('packlist_holds_escaping_name', case, f'PackList.{route}({world.show(p)!r}) recorded the pack name {world.show(name)!r}',
+                         op='packlist_' + route)
+                break
+
+
 # ---------------------------------------------------------------------------------------------
 
 FOREIGN_PATHS = ['../root_evil/secret.txt', '..\\root_evil\\secret.txt', '../outside.txt', '../rootX/s.txt', 'sub/../../outside.txt']
@@ -528,6 +559,7 @@ def shard(spec) -> core.Acc:
                 for op in OPS_SEQ:      # one file-system object serves the whole shard: repeated identical requests included
                     check_call(acc, world, cfg, fs, prefix, op, segs, seps, p, narrow, broad)
             check_unify(acc, world, segs, seps, p)
+            check_packlist(acc, world, segs, seps, p)
         acc.count('paths', n_paths)
         if spec == _FIRST_SHARD[0]:
             check_foreign_handles(acc, world)
@@ -619,6 +651,9 @@ def replay(case: dict) -> list:
             check_foreign_handles(acc, world)
             return acc.all_failures()
         p = spell(world, segs, seps)
+        if case['op'].startswith('packlist_'):
+            check_packlist(acc, world, segs, seps, p)
+            return [f for f in acc.all_failures() if f.case.get('op') == case['op']]
         if case['op'] == 'unify_path':
             check_unify(acc, world, segs, seps, p)
         else:
